@@ -97,7 +97,17 @@ impl ChanSendDatum {
     pub fn send(&mut self, d: ChanDatum) -> (r: core::result::Result<(), Error>)
         ensures final(self).log() == old(self).log().push(d)
     { unimplemented!() }
+    // the channel's other send methods give up instead of blocking: the datum is then NOT delivered (assumed: crossbeam's semantics)
+    #[verifier::external_body]
+    pub fn send_timeout<T>(&mut self, d: ChanDatum, timeout: T) -> (r: core::result::Result<(), Error>)
+        ensures r is Ok ==> final(self).log() == old(self).log().push(d), r is Err ==> final(self).log() == old(self).log()
+    { unimplemented!() }
+    #[verifier::external_body]
+    pub fn try_send(&mut self, d: ChanDatum) -> (r: core::result::Result<(), Error>)
+        ensures r is Ok ==> final(self).log() == old(self).log().push(d), r is Err ==> final(self).log() == old(self).log()
+    { unimplemented!() }
 }
+//@opaque_consts_here
 
 // ---- spec: the protocol every worker must follow on every path (C06: the coordinator's wait condition depends on it)
 pub open spec fn open_ok(l: Seq<ChanDatum>) -> bool {
@@ -207,6 +217,20 @@ pub open spec fn sent_ok(l: Seq<ChanDatum>, m: Seq<SL>, a: Option<int>, b: Optio
     &&& forall|k: int| 0 <= k < cursor && in_win(m, a, b, k) ==> exists|i: int| 0 < i < l.len() && msg_idx(#[trigger] l[i]) == k
 }
 
+/// the "last message of its file" flag a datum carries
+pub open spec fn msg_flag(d: ChanDatum) -> bool { match d { ChanDatum::NewMessage(_, f) => f, _ => false } }
+/// C02: the flag is set exactly on the file's last message (the coordinator supplies a missing final newline after a flagged message)
+pub open spec fn flags_ok(l: Seq<ChanDatum>, m: Seq<SL>) -> bool {
+    forall|i: int| 0 < i < l.len() ==> msg_flag(#[trigger] l[i]) == (msg_idx(l[i]) == m.len() - 1)
+}
+pub proof fn lemma_flags_push(l: Seq<ChanDatum>, d: ChanDatum, m: Seq<SL>)
+    requires flags_ok(l, m), msg_flag(d) == (msg_idx(d) == m.len() - 1)
+    ensures flags_ok(l.push(d), m)
+{
+    assert forall|i: int| 0 < i < l.push(d).len() implies msg_flag(#[trigger] l.push(d)[i]) == (msg_idx(l.push(d)[i]) == m.len() - 1) by {
+        if i < l.len() { assert(l.push(d)[i] == l[i]); }
+    }
+}
 /// every in-window message of the file has been sent
 pub open spec fn model_done(l: Seq<ChanDatum>, m: Seq<SL>, a: Option<int>, b: Option<int>) -> bool {
     forall|k: int| in_win(m, a, b, k) ==> exists|i: int| 0 < i < l.len() && msg_idx(#[trigger] l[i]) == k
@@ -228,6 +252,7 @@ pub open spec fn model_done(l: Seq<ChanDatum>, m: Seq<SL>, a: Option<int>, b: Op
         // skipped before the last one sent; and when the worker reports FileOk, none after it either
         sent_ok(final(chan_send_dt).log().drop_last(), file_model(thread_init_data.0), oi(thread_init_data.5), oi(thread_init_data.6),
                 cursor_of(final(chan_send_dt).log().drop_last())),
+        flags_ok(final(chan_send_dt).log().drop_last(), file_model(thread_init_data.0)),
         (final(chan_send_dt).log().last()->FileSummary_1 is FileOk)
             ==> model_done(final(chan_send_dt).log().drop_last(), file_model(thread_init_data.0), oi(thread_init_data.5), oi(thread_init_data.6)),
 //@before "let result = syslogproc.process_stage0_valid_file_check();"
@@ -252,6 +277,7 @@ pub open spec fn model_done(l: Seq<ChanDatum>, m: Seq<SL>, a: Option<int>, b: Op
                 assert forall|k: int| 0 <= k < j implies !in_win(m, a, b, k) by { assert(m[k].end >= 0); }
                 lemma_sent_push(log1, chan_send_dt.log().last(), m, a, b, 0, j);
                 assert(chan_send_dt.log() == log1.push(chan_send_dt.log().last()));
+                lemma_flags_push(log1, chan_send_dt.log().last(), m);
                 cursor = j + 1;
             }
 //@before "if !search_more"
@@ -279,12 +305,12 @@ pub open spec fn model_done(l: Seq<ChanDatum>, m: Seq<SL>, a: Option<int>, b: Op
             syslogproc.same(&sp0), model_wf(m, sp0.filesz()),
             m == sp0.model(), a == sp0.a(), b == sp0.b(),
             open_ok(chan_send_dt.log()), chan_send_dt.log().len() >= 2,
-            sent_ok(chan_send_dt.log(), m, a, b, cursor),
+            sent_ok(chan_send_dt.log(), m, a, b, cursor), flags_ok(chan_send_dt.log(), m),
             1 <= cursor <= m.len(), cursor == msg_idx(chan_send_dt.log().last()) + 1,
             fo1 as int == m[cursor - 1].end + 1,
         ensures
             open_ok(chan_send_dt.log()), chan_send_dt.log().len() >= 2,
-            sent_ok(chan_send_dt.log(), m, a, b, cursor), cursor == msg_idx(chan_send_dt.log().last()) + 1,
+            sent_ok(chan_send_dt.log(), m, a, b, cursor), cursor == msg_idx(chan_send_dt.log().last()) + 1, flags_ok(chan_send_dt.log(), m),
             file_err is None ==> model_done(chan_send_dt.log(), m, a, b),
             file_err is Some ==> file_err.unwrap() is FileErrIoPath,
             syslogproc.same(&sp0),
@@ -301,6 +327,7 @@ pub open spec fn model_done(l: Seq<ChanDatum>, m: Seq<SL>, a: Option<int>, b: Op
                     assert forall|k: int| cursor <= k < j implies !in_win(m, a, b, k) by { lemma_ends(m, sp0.filesz(), cursor, k); }
                     lemma_sent_push(log_top, chan_send_dt.log().last(), m, a, b, cursor, j);
                     assert(chan_send_dt.log() == log_top.push(chan_send_dt.log().last()));
+                    lemma_flags_push(log_top, chan_send_dt.log().last(), m);
                     cursor = j + 1;
                     if is_last {
                         assert forall|k: int| in_win(m, a, b, k) implies exists|i: int| 0 < i < chan_send_dt.log().len() && msg_idx(#[trigger] chan_send_dt.log()[i]) == k by { }
